@@ -1,3 +1,32 @@
 add("C10", "checks/c10_queue.c", ["default-asan", "noinfo-asan", "default-plain"], ["default-asan", "noinfo-asan", "default-plain", "noinfo-plain"],
-    "placeholder",
-    extra_sources=["kit/ref_queue.c"], ldflags=["-Wl,--wrap=strndup", "-Wl,--wrap=free"])
+    "cases: phase 'enumerated' = one block per (capacity N in 1..4, 3-letter prefix) that runs EVERY history of length L over the 7-letter "
+    "alphabet {push(-100), push(-200,\"xy\"), push(-100,'p\"q'), SCPI_ErrorPop, SYST:ERR?, SCPI_ErrorClear, count(API + SYST:ERR:COUN?)} with that "
+    "prefix (L = 7 quick / 9 thorough in the gcc -O2 build, 7 / 8 under ASan; all shorter histories are prefixes and every operation is "
+    "checked when it is executed), and re-runs each history once per text allocation with that allocation failing; phase 'random' = one "
+    "history per case of up to 10^4 operations, capacity 1..64, 15 codes, texts of 0..300 characters (quotes, ';', any byte), four ways of "
+    "passing the text (exact-size unterminated source, longer source, length beyond the terminator, automatic length), random allocation "
+    "failures, client keeping 0..4 popped texts. evaluations = operations executed on the real library and compared with the model; "
+    "distinct_nontrivial = 1/64 subsample of enumerated histories + one key per random history (lower bound)",
+    extra_sources=["kit/ref_queue.c"], ldflags=["-Wl,--wrap=strndup", "-Wl,--wrap=free"],
+    level="fault_enumeration",
+    exhaustive=dict(quick=False, thorough=False),
+    technique="model-based runtime monitor: real error queue vs kit/ref_queue (shifting-array reference FIFO with overflow marker) compared after "
+              "every operation through SCPI_ErrorPop, SYST:ERR? (own IEEE 488.2 string-response reader), SCPI_ErrorCount and SYST:ERR:COUN?; "
+              "ownership ledger on --wrap=strndup/--wrap=free with owner tracking, quarantine of released texts (poisoned under ASan, scribbled in "
+              "the -O2 build) and conservation check after every operation; allocation-failure injection in __wrap_strndup; exact-size heap "
+              "queue array and text sources under ASan+UBSan+LSan, guard entries around the queue array in the -O2 build",
+    level_text="exhaustive enumeration by execution of all histories up to length 7 (quick) / 9 (thorough) over a 7-letter alphabet for capacities "
+               "1..4, and for each enumerated history of every single failpoint (k-th strndup returns NULL, k = 1..number of text allocations of "
+               "that history) - failpoints are enumerated exhaustively for the enumerated histories, singly, not in combination; multiple "
+               "failures per history, long histories, long texts and larger capacities are sampled (random phase). The alphabet fixes 2 codes "
+               "and 2 texts, so the universal claim over codes/texts/lengths is explored, not exhausted",
+    level_note="trusted: kit/ref_queue.c (about 60 lines), the response reader, the ledger in the check, glibc strndup/free, the sanitizer "
+               "runtimes. Error-callback events and the treatment of an EMPTY text (stored as \"\" or as no text) are counted, not asserted; for "
+               "SYST:ERR? answers whose description;text exceeds the 255 characters of SCPI-99 21.8 only 'is a prefix' is asserted (the "
+               "complete text is checked through SCPI_ErrorPop); with automatic length a text longer than 255 may come back cut at 255",
+    assumptions=["kit/ref_queue.c implements the FIFO of the statement (push on full replaces the newest entry by -350, pop on empty gives 0)",
+                 "the description in the SYST:ERR? answer is SCPI_ErrorTranslate(code) (taken from the library, not re-derived)",
+                 "the library allocates texts only through strndup and releases them only through free (true for HAVE_STRNDUP builds; "
+                 "ledger.strndup_calls is a required counter)",
+                 "single-threaded use; the client releases popped texts with free()",
+                 "gcc -O2 and clang -O1 ASan+UBSan builds of the working tree, glibc"])
